@@ -71,9 +71,19 @@ def treeOp (j : Json) : Except String Json := do
   let s0 ← initOf j
   pure (Json.arr (tree p alpha depth s0 #[]))
 
+/-- `{"op":"pick_spec","plot":..,"events":[..]}` → the ABSTRACT dialog (`Pick.specRun`: modifier flag and the list of
+    (frequency, order) pairs in ascending frequency) after the whole history; `C16_refine` says the concrete state equals it,
+    the harness compares it with the real dialog's final state directly -/
+def specOp (j : Json) : Except String Json := do
+  let p ← plotOfJson j
+  let evs ← listOf eventOfJson (← field j "events")
+  let (sh, l) := specRun p evs
+  pure (Json.mkObj [("shift", Json.bool sh),
+    ("pairs", listToJson (fun (q : Rat × Nat) => Json.arr #[ratToJson q.1, Json.num q.2]) l)])
+
 -- the hand-over to extraction is compared through C11's ops `ssi_mpe` / `plscf_mpe` (`Ops/C11.lean`).
 
 def ops : List (String × (Json → Except String Json)) :=
-  [("pick_replay", replayOp), ("pick_tree", treeOp)]
+  [("pick_replay", replayOp), ("pick_tree", treeOp), ("pick_spec", specOp)]
 
 end PV.Ops.C16
